@@ -56,6 +56,12 @@ theorem wildcard_final (ans : Nat → Answer) : ∀ (s : List Nat) (v : Vars),
       | 2 => simp [h0, runG]
       | n + 3 => simp [h0, runG]
 
+/-- The model's hand-written decision `allowed` IS the condition of the final `if` regenerated from
+the source (all 27 decision triples). -/
+theorem allowed_eq_generated (v : Vars) : allowed v = Gen.allowedCond v := by
+  obtain ⟨a, b, c⟩ := v
+  cases a <;> cases b <;> cases c <;> decide
+
 /-- **Decision theorem.**  With an authorizer and readable attributes, for ALL answers
 (decision × error, 3 × 2 per check) of the three checks and for EVERY interleaving of the three
 stores (any schedule in which each goroutine runs, in any order), the request is allowed exactly
